@@ -1,5 +1,857 @@
-use crate::Ctx;
+//! C12 - multi-part snapshot transfer reassembles exactly once.
+//!
+//! Generator: transfers (tick, base tick, data length 0..=32*900, crc) cut into messages by the
+//! library's own `delta_chunks`, delivered to one `DeltaReceiver` in generated / enumerated orders
+//! with duplicates, interleaved with the messages of other (older and newer) ticks and with
+//! arbitrary ("hostile") messages whose tick is older than the newest one seen.
+//!
+//! Oracle: a reference model of the receiver contract (newest tick seen, set of parts received
+//! for it, completed flag) decides for every call whether it has to hand out the transfer
+//! (`Ok(Some(..))` with the original tick, absolute base tick, data and crc) or must not; the
+//! warning sink has to stay empty for consistent transfers; a twin run of the same schedule
+//! without the old-tick messages has to give the same result for every remaining call.
 
-pub fn run(_ctx: &Ctx) {
-    // not built yet
+use crate::util::Warnings;
+use crate::{burn, ensure, ensure_eq, guard_s, pick, set_fuel, unlimited_fuel, Ctx, Outcome};
+use libtw2_gamenet_snap as msg;
+use libtw2_gamenet_snap::SnapMsg;
+use libtw2_snapshot::snap::delta_chunks;
+use libtw2_snapshot::DeltaReceiver;
+use proptest::prelude::*;
+use serde::{Deserialize, Serialize};
+use serde_json::json;
+use std::collections::BTreeSet;
+
+pub const PART: usize = 900;
+pub const MAX_PARTS: usize = 32;
+pub const KEY_ATTR: &str = "multipart-base-tick-compared-relative";
+
+// ---------------------------------------------------------------------------
+// Case types
+
+#[derive(Clone, Debug, Hash, Serialize, Deserialize, PartialEq)]
+pub struct Transfer {
+    pub tick: i32,
+    pub base: i32,
+    pub len: u32,
+    pub seed: u8,
+    pub crc: i32,
+}
+
+#[derive(Clone, Debug, Hash, Serialize, Deserialize, PartialEq)]
+pub enum Deliv {
+    /// message `p` (0 for the empty/single form) of transfer `t`
+    Part { t: u8, p: u8 },
+    /// an arbitrary message for a tick strictly older than the newest tick seen so far
+    /// (`newest - 1 - back`); skipped when nothing was seen yet or the subtraction overflows
+    Old {
+        back: u16,
+        form: u8,
+        delta_tick: i32,
+        num_parts: i32,
+        part: i32,
+        crc: i32,
+        len: u16,
+    },
+}
+
+#[derive(Clone, Debug, Hash, Serialize, Deserialize, PartialEq)]
+pub struct HistCase {
+    pub transfers: Vec<Transfer>,
+    pub sched: Vec<Deliv>,
+}
+
+// ---------------------------------------------------------------------------
+// Sender side
+
+pub fn make_data(len: usize, seed: u8) -> Vec<u8> {
+    (0..len)
+        .map(|i| ((i / PART) * 37 + (i % PART) * 7 + (i % PART) / 256 + seed as usize) as u8)
+        .collect()
+}
+
+#[derive(Clone, Debug, PartialEq)]
+pub enum OMsg {
+    Empty { tick: i32, delta_tick: i32 },
+    Single { tick: i32, delta_tick: i32, crc: i32, data: Vec<u8> },
+    Part { tick: i32, delta_tick: i32, num_parts: i32, part: i32, crc: i32, data: Vec<u8> },
+}
+
+impl OMsg {
+    pub fn from_msg(m: &SnapMsg) -> OMsg {
+        match *m {
+            SnapMsg::SnapEmpty(e) => OMsg::Empty { tick: e.tick, delta_tick: e.delta_tick },
+            SnapMsg::SnapSingle(s) => OMsg::Single {
+                tick: s.tick,
+                delta_tick: s.delta_tick,
+                crc: s.crc,
+                data: s.data.to_vec(),
+            },
+            SnapMsg::Snap(s) => OMsg::Part {
+                tick: s.tick,
+                delta_tick: s.delta_tick,
+                num_parts: s.num_parts,
+                part: s.part,
+                crc: s.crc,
+                data: s.data.to_vec(),
+            },
+        }
+    }
+    pub fn tick(&self) -> i32 {
+        match *self {
+            OMsg::Empty { tick, .. } | OMsg::Single { tick, .. } | OMsg::Part { tick, .. } => tick,
+        }
+    }
+}
+
+/// Cuts the transfer into messages with the library's `delta_chunks` and checks the sender-side
+/// premise of the property (ceil(len/900) parts, right message form, parts concatenate to the data).
+pub fn sender_msgs(tr: &Transfer, data: &[u8]) -> Result<Vec<OMsg>, String> {
+    ensure!(
+        tr.tick.checked_sub(tr.base).is_some(),
+        "generator error: tick - base overflows ({} - {})",
+        tr.tick,
+        tr.base
+    );
+    let msgs: Vec<OMsg> = guard_s("delta_chunks", || {
+        let mut out = Vec::new();
+        for m in delta_chunks(tr.tick, tr.base, data, tr.crc) {
+            burn();
+            out.push(OMsg::from_msg(&m));
+        }
+        out
+    })?;
+    let n = (data.len() + PART - 1) / PART;
+    ensure_eq!(msgs.len(), n.max(1), "number of messages for {} bytes", data.len());
+    let wire = tr.tick - tr.base;
+    let mut cat = Vec::with_capacity(data.len());
+    for (i, m) in msgs.iter().enumerate() {
+        match m {
+            OMsg::Empty { tick, delta_tick } => {
+                ensure!(n == 0, "empty form used for {} bytes", data.len());
+                ensure_eq!((*tick, *delta_tick), (tr.tick, wire), "attributes of the empty form");
+            }
+            OMsg::Single { tick, delta_tick, crc, data: d } => {
+                ensure!(n == 1, "single form used for {} bytes", data.len());
+                ensure_eq!((*tick, *delta_tick, *crc), (tr.tick, wire, tr.crc), "attributes of the single form");
+                cat.extend_from_slice(d);
+            }
+            OMsg::Part { tick, delta_tick, num_parts, part, crc, data: d } => {
+                ensure!(n >= 2, "multi-part form used for {} bytes", data.len());
+                ensure_eq!(
+                    (*tick, *delta_tick, *crc, *num_parts, *part),
+                    (tr.tick, wire, tr.crc, n as i32, i as i32),
+                    "attributes of part {}",
+                    i
+                );
+                ensure!(!d.is_empty() && d.len() <= PART, "part {} has {} bytes", i, d.len());
+                cat.extend_from_slice(d);
+            }
+        }
+    }
+    ensure!(cat == data, "the parts in order do not concatenate to the data ({} bytes)", data.len());
+    Ok(msgs)
+}
+
+// ---------------------------------------------------------------------------
+// Receiver side
+
+#[derive(Clone, Debug, PartialEq)]
+pub enum Res {
+    Done { tick: i32, delta_tick: i32, data: Option<(Vec<u8>, i32)> },
+    Pending,
+    Err(String),
+}
+
+fn short(r: &Res) -> String {
+    match r {
+        Res::Done { tick, delta_tick, data } => format!(
+            "Ok(Some(tick={}, delta_tick={}, data={}))",
+            tick,
+            delta_tick,
+            match data {
+                None => "None".to_string(),
+                Some((d, c)) => format!("{} bytes, crc={}", d.len(), c),
+            }
+        ),
+        Res::Pending => "Ok(None)".into(),
+        Res::Err(e) => format!("Err({})", e),
+    }
+}
+
+/// Compact but complete rendering (data as length + 64-bit FNV hash) for the twin-run comparison.
+fn render(r: &Res) -> String {
+    match r {
+        Res::Done { data: Some((d, _)), .. } => {
+            let mut h: u64 = 0xcbf29ce484222325;
+            for &b in d {
+                h = (h ^ b as u64).wrapping_mul(0x100000001b3);
+            }
+            format!("{} fnv={:016x}", short(r), h)
+        }
+        _ => short(r),
+    }
+}
+
+pub fn feed(r: &mut DeltaReceiver, w: &mut Warnings, m: &OMsg) -> Result<Res, String> {
+    guard_s("DeltaReceiver call", || {
+        let res = match m {
+            OMsg::Empty { tick, delta_tick } => r.snap_empty(w, msg::SnapEmpty { tick: *tick, delta_tick: *delta_tick }),
+            OMsg::Single { tick, delta_tick, crc, data } => r.snap_single(
+                w,
+                msg::SnapSingle { tick: *tick, delta_tick: *delta_tick, crc: *crc, data },
+            ),
+            OMsg::Part { tick, delta_tick, num_parts, part, crc, data } => r.snap(
+                w,
+                msg::Snap {
+                    tick: *tick,
+                    delta_tick: *delta_tick,
+                    num_parts: *num_parts,
+                    part: *part,
+                    crc: *crc,
+                    data,
+                },
+            ),
+        };
+        match res {
+            Ok(Some(d)) => Res::Done {
+                tick: d.tick,
+                delta_tick: d.delta_tick,
+                data: d.data_and_crc.map(|(b, c)| (b.to_vec(), c)),
+            },
+            Ok(None) => Res::Pending,
+            Err(e) => Res::Err(format!("{:?}", e)),
+        }
+    })
+}
+
+#[derive(Default, Debug, Clone)]
+pub struct Stats {
+    pub completed: usize,
+    pub completed_multi_shuffled: usize,
+    pub old_msgs: usize,
+    pub old_hostile: usize,
+    pub dups: usize,
+    pub max_parts: usize,
+    pub abandoned: usize,
+    pub calls: usize,
+}
+
+/// Feeds the schedule to a fresh receiver, checking every call against the model. Returns the
+/// rendered result of every call that was not for an old tick (for the twin run).
+fn run_hist(c: &HistCase, skip_old: bool) -> Result<(Vec<(usize, String)>, Stats), String> {
+    let datas: Vec<Vec<u8>> = c.transfers.iter().map(|t| make_data(t.len as usize, t.seed)).collect();
+    let mut msgs: Vec<Vec<OMsg>> = Vec::new();
+    for (t, d) in c.transfers.iter().zip(&datas) {
+        msgs.push(sender_msgs(t, d)?);
+    }
+    for (i, a) in c.transfers.iter().enumerate() {
+        for b in &c.transfers[..i] {
+            ensure!(a.tick != b.tick, "generator error: two transfers for tick {}", a.tick);
+        }
+    }
+    let mut recv = DeltaReceiver::new();
+    let mut st = Stats::default();
+    // model
+    let mut newest: Option<i32> = None;
+    let mut got: BTreeSet<u8> = BTreeSet::new();
+    let mut arrival: Vec<u8> = Vec::new();
+    let mut had_dup = false;
+    let mut completed = false;
+    let mut done_ticks: BTreeSet<i32> = BTreeSet::new();
+    let mut out = Vec::new();
+    for (si, d) in c.sched.iter().enumerate() {
+        burn();
+        let (m, consistent_of): (OMsg, Option<(usize, u8)>) = match d {
+            Deliv::Part { t, p } => {
+                let ti = *t as usize;
+                ensure!(ti < msgs.len() && (*p as usize) < msgs[ti].len(), "generator error: bad schedule entry");
+                (msgs[ti][*p as usize].clone(), Some((ti, *p)))
+            }
+            Deliv::Old { back, form, delta_tick, num_parts, part, crc, len } => {
+                let Some(n) = newest else { continue };
+                let Some(tick) = n.checked_sub(1).and_then(|x| x.checked_sub(*back as i32)) else { continue };
+                let data = make_data(*len as usize, *crc as u8);
+                let m = match form % 3 {
+                    0 => OMsg::Empty { tick, delta_tick: *delta_tick },
+                    1 => OMsg::Single { tick, delta_tick: *delta_tick, crc: *crc, data },
+                    _ => OMsg::Part { tick, delta_tick: *delta_tick, num_parts: *num_parts, part: *part, crc: *crc, data },
+                };
+                (m, None)
+            }
+        };
+        let tick = m.tick();
+        let old = newest.map(|n| tick < n).unwrap_or(false);
+        if old {
+            st.old_msgs += 1;
+            if consistent_of.is_none() {
+                st.old_hostile += 1;
+            }
+            if skip_old {
+                continue;
+            }
+        }
+        let mut w = Warnings::new();
+        let res = feed(&mut recv, &mut w, &m)?;
+        st.calls += 1;
+        if old {
+            ensure!(
+                !matches!(res, Res::Done { .. }),
+                "call #{} ({:?}) is for tick {} which is older than the newest tick seen ({}), but it completed a transfer: {}",
+                si,
+                d,
+                tick,
+                newest.unwrap(),
+                short(&res)
+            );
+            continue;
+        }
+        let (ti, p) = consistent_of.expect("hostile messages are old by construction");
+        let tr = &c.transfers[ti];
+        let nmsgs = msgs[ti].len();
+        if newest.map(|n| tick > n).unwrap_or(true) {
+            if newest.is_some() && !completed {
+                st.abandoned += 1;
+            }
+            newest = Some(tick);
+            got.clear();
+            arrival.clear();
+            had_dup = false;
+            completed = false;
+        }
+        let mut expect_done = false;
+        if completed {
+            st.dups += 1;
+        } else if got.contains(&p) {
+            st.dups += 1;
+            had_dup = true;
+        } else {
+            got.insert(p);
+            arrival.push(p);
+            if got.len() == nmsgs {
+                expect_done = true;
+                completed = true;
+            }
+        }
+        if !w.is_empty() {
+            return Err(format!(
+                "call #{} (message {} of {} of the consistent transfer {:?}) raised warnings {:?} (result {})",
+                si, p, nmsgs, tr, w.0, short(&res)
+            ));
+        }
+        if expect_done {
+            ensure!(
+                done_ticks.insert(tick),
+                "model error: tick {} completed twice",
+                tick
+            );
+            let want = Res::Done {
+                tick: tr.tick,
+                delta_tick: tr.base,
+                data: if tr.len == 0 { None } else { Some((datas[ti].clone(), tr.crc)) },
+            };
+            if res != want {
+                let detail = match (&res, &want) {
+                    (Res::Done { data: Some((g, _)), .. }, Res::Done { data: Some((e, _)), .. }) if g != e => {
+                        let at = g.iter().zip(e.iter()).position(|(a, b)| a != b).unwrap_or(g.len().min(e.len()));
+                        format!(" (data differs at byte {}, arrival order of parts {:?})", at, arrival)
+                    }
+                    _ => String::new(),
+                };
+                return Err(format!(
+                    "call #{} delivered the last missing message ({} of {}) of {:?} while it was the newest tick: expected {} but got {}{}",
+                    si, p, nmsgs, tr, short(&want), short(&res), detail
+                ));
+            }
+            st.completed += 1;
+            st.max_parts = st.max_parts.max(nmsgs);
+            let in_order = arrival.windows(2).all(|x| x[0] < x[1]);
+            if nmsgs >= 2 && (!in_order || had_dup) {
+                st.completed_multi_shuffled += 1;
+            }
+        } else {
+            ensure!(
+                !matches!(res, Res::Done { .. }),
+                "call #{} (message {} of {} of {:?}; parts received before: {:?}, already completed: {}) must not hand out a transfer but returned {}",
+                si,
+                p,
+                nmsgs,
+                tr,
+                got,
+                completed && !expect_done,
+                short(&res)
+            );
+        }
+        out.push((si, format!("{} warnings={:?}", render(&res), w.0)));
+    }
+    Ok((out, st))
+}
+
+pub fn check_hist(c: &HistCase) -> Result<Stats, String> {
+    set_fuel(200_000);
+    let r = check_hist_inner(c);
+    unlimited_fuel();
+    r
+}
+
+fn check_hist_inner(c: &HistCase) -> Result<Stats, String> {
+    let (a, st) = run_hist(c, false)?;
+    if st.old_msgs > 0 {
+        let (b, _) = run_hist(c, true)?;
+        ensure_eq!(a.len(), b.len(), "twin run without the old-tick messages: number of calls");
+        for (x, y) in a.iter().zip(b.iter()) {
+            if x != y {
+                return Err(format!(
+                    "call #{} gives a different result when the messages for older ticks are left out of the schedule: with them {} / without them {}",
+                    x.0, x.1, y.1
+                ));
+            }
+        }
+    }
+    Ok(st)
+}
+
+fn coincidence(t: &Transfer) -> bool {
+    t.tick.checked_sub(t.base) == Some(t.base)
+}
+
+fn hist_outcome(c: &HistCase, st: &Stats) -> Outcome {
+    let multi: Vec<&Transfer> = c.transfers.iter().filter(|t| t.len as usize > PART).collect();
+    Outcome::nt(st.completed_multi_shuffled > 0)
+        .class_if(st.completed > 0, "some_transfer_completed")
+        .class_if(st.completed >= 2, "two_or_more_completed")
+        .class_if(st.completed_multi_shuffled > 0, "multipart_completed_shuffled_or_dup")
+        .class_if(st.max_parts >= 2 && st.max_parts <= 4, "completed_2_4_parts")
+        .class_if(st.max_parts >= 5 && st.max_parts <= 16, "completed_5_16_parts")
+        .class_if(st.max_parts >= 17, "completed_17_32_parts")
+        .class_if(st.max_parts == 32, "completed_32_parts")
+        .class_if(st.dups > 0, "duplicate_delivered")
+        .class_if(st.old_msgs > 0, "old_tick_messages")
+        .class_if(st.old_hostile > 0, "old_tick_hostile_messages")
+        .class_if(st.abandoned > 0, "transfer_abandoned_for_newer_tick")
+        .class_if(!multi.is_empty() && multi.iter().all(|t| coincidence(t)), "multipart_only_with_tick_minus_base_eq_base")
+        .class_if(multi.iter().any(|t| !coincidence(t)), "multipart_with_tick_minus_base_ne_base")
+        .class_if(c.transfers.iter().any(|t| t.tick > i32::MAX - 8), "tick_near_i32_max")
+        .class_if(c.transfers.iter().any(|t| t.tick < 0), "negative_tick")
+        .class_if(c.transfers.iter().any(|t| t.len == 0), "empty_form")
+        .class_if(c.transfers.iter().any(|t| t.len >= 1 && t.len as usize <= PART), "single_form")
+}
+
+// ---------------------------------------------------------------------------
+// Generators
+
+fn len_strategy() -> BoxedStrategy<u32> {
+    prop_oneof![
+        1 => Just(0u32),
+        2 => prop_oneof![Just(1u32), Just(899), Just(900), Just(901), Just(1799), Just(1800), Just(1801)],
+        3 => (0u32..=MAX_PARTS as u32, -1i32..=1).prop_map(|(k, d)| {
+            ((k as i32 * PART as i32 + d).max(0) as u32).min((MAX_PARTS * PART) as u32)
+        }),
+        3 => 901u32..=4500,
+        2 => 0u32..=(MAX_PARTS * PART) as u32,
+        1 => ((MAX_PARTS - 3) * PART) as u32..=(MAX_PARTS * PART) as u32,
+    ]
+    .boxed()
+}
+
+/// (tick, base) with `tick - base` not overflowing.
+fn tick_pair_strategy() -> BoxedStrategy<(i32, i32)> {
+    fn fix(tick: i32, base: i32) -> (i32, i32) {
+        if tick.checked_sub(base).is_some() {
+            (tick, base)
+        } else {
+            (tick, 0)
+        }
+    }
+    prop_oneof![
+        4 => (0i32..60).prop_flat_map(|t| (Just(t), -1i32..=t)),
+        3 => (0i32..=i32::MAX).prop_flat_map(|t| (Just(t), -1i32..=t)).prop_map(|(t, b)| fix(t, b)),
+        2 => (0i32..8, 0i32..40).prop_map(|(a, b)| fix(i32::MAX - a, i32::MAX - a - b - 1)),
+        1 => (0i32..8, -1i32..3).prop_map(|(a, b)| fix(i32::MAX - a, b)),
+        1 => (0i32..1_000_000).prop_map(|b| (2 * b, b)),
+        1 => (any::<i32>(), any::<i32>()).prop_map(|(t, b)| fix(t, b)),
+    ]
+    .boxed()
+}
+
+#[derive(Clone, Debug)]
+struct RawOld {
+    pos: u16,
+    back: u16,
+    form: u8,
+    delta_tick: i32,
+    num_parts: i32,
+    part: i32,
+    crc: i32,
+    len: u16,
+}
+
+fn old_strategy() -> impl Strategy<Value = RawOld> {
+    let small_or_any = || prop_oneof![3 => -2i32..40, 1 => any::<i32>()];
+    (
+        any::<u16>(),
+        prop_oneof![3 => 0u16..4, 1 => any::<u16>()],
+        0u8..3,
+        small_or_any(),
+        small_or_any(),
+        small_or_any(),
+        any::<i32>(),
+        0u16..40,
+    )
+        .prop_map(|(pos, back, form, delta_tick, num_parts, part, crc, len)| RawOld {
+            pos,
+            back,
+            form,
+            delta_tick,
+            num_parts,
+            part,
+            crc,
+            len,
+        })
+}
+
+const WINDOWS: [u64; 7] = [0, 20_000, 60_000, 65_536, 100_000, 200_000, 400_000];
+
+fn hist_strategy(force_coincidence: bool) -> impl Strategy<Value = HistCase> {
+    let transfer = (-6i32..=6, 0u8..6, any::<u16>(), len_strategy(), any::<u8>(), any::<i32>());
+    (
+        tick_pair_strategy(),
+        proptest::collection::vec(transfer, 1..=4),
+        any::<bool>(),
+        0usize..WINDOWS.len(),
+        proptest::collection::vec(any::<u16>(), 4 * MAX_PARTS),
+        proptest::collection::vec((any::<u16>(), any::<u16>(), any::<bool>()), 0..6),
+        proptest::collection::vec(old_strategy(), 0..3),
+        0u8..4,
+    )
+        .prop_map(move |((tick0, base0), raw, ascending, win, keys, dups, olds, ascend_sel)| {
+            // transfers with distinct ticks
+            let mut transfers: Vec<Transfer> = Vec::new();
+            for (j, (off, base_mode, base_r, len, seed, crc)) in raw.into_iter().enumerate() {
+                let tick = if j == 0 { Some(tick0) } else { tick0.checked_add(off) };
+                let Some(tick) = tick else { continue };
+                if transfers.iter().any(|t| t.tick == tick) {
+                    continue;
+                }
+                let mut base = if j == 0 {
+                    base0
+                } else {
+                    match base_mode {
+                        0 => -1,
+                        1 => tick.wrapping_sub(1),
+                        2 => transfers.last().map(|t| t.tick).unwrap_or(-1),
+                        3 => tick / 2,
+                        _ => {
+                            if tick >= 0 {
+                                (pick(base_r, tick as usize + 2) as i64 - 1) as i32
+                            } else {
+                                tick.wrapping_sub(base_r as i32)
+                            }
+                        }
+                    }
+                };
+                if tick.checked_sub(base).is_none() {
+                    base = 0;
+                }
+                let mut t = Transfer { tick, base, len, seed, crc };
+                if force_coincidence && t.len as usize > PART && !coincidence(&t) {
+                    // known finding open: keep multi-part transfers inside the class the receiver handles
+                    if t.tick % 2 != 0 {
+                        match t.tick.checked_sub(1) {
+                            Some(e) if !transfers.iter().any(|x| x.tick == e) => t.tick = e,
+                            _ => t.len = (t.len % PART as u32).max(1),
+                        }
+                    }
+                    if t.tick % 2 == 0 {
+                        t.base = t.tick / 2;
+                    }
+                }
+                transfers.push(t);
+            }
+            if ascending || ascend_sel == 0 {
+                transfers.sort_by_key(|t| t.tick);
+            }
+            // positions
+            let w = WINDOWS[win];
+            let mut entries: Vec<(u64, usize, Deliv)> = Vec::new();
+            let mut ord = 0;
+            for (j, t) in transfers.iter().enumerate() {
+                let n = ((t.len as usize + PART - 1) / PART).max(1);
+                for p in 0..n {
+                    let pos = j as u64 * 65_536 + keys[j * MAX_PARTS + p] as u64 * w / 65_536;
+                    entries.push((pos, ord, Deliv::Part { t: j as u8, p: p as u8 }));
+                    ord += 1;
+                }
+            }
+            let span = transfers.len() as u64 * 65_536 + w;
+            let base_entries = entries.clone();
+            for (which, key, near) in dups {
+                let (pos0, _, d) = base_entries[pick(which, base_entries.len())].clone();
+                let pos = if near { pos0 + (key as u64 & 0x3ff) } else { key as u64 * span / 65_536 };
+                entries.push((pos, ord, d));
+                ord += 1;
+            }
+            for o in olds {
+                let pos = o.pos as u64 * span / 65_536;
+                entries.push((
+                    pos,
+                    ord,
+                    Deliv::Old {
+                        back: o.back,
+                        form: o.form,
+                        delta_tick: o.delta_tick,
+                        num_parts: o.num_parts,
+                        part: o.part,
+                        crc: o.crc,
+                        len: o.len,
+                    },
+                ));
+                ord += 1;
+            }
+            entries.sort_by_key(|e| (e.0, e.1));
+            HistCase {
+                transfers,
+                sched: entries.into_iter().map(|e| e.2).collect(),
+            }
+        })
+}
+
+// ---------------------------------------------------------------------------
+// Enumerations
+
+fn factorial(n: usize) -> u64 {
+    (1..=n as u64).product::<u64>().max(1)
+}
+
+/// The `idx`-th permutation of 0..n (factorial number system).
+fn nth_perm(n: usize, mut idx: u64) -> Vec<u8> {
+    let mut pool: Vec<u8> = (0..n as u8).collect();
+    let mut out = Vec::with_capacity(n);
+    for i in (1..=n).rev() {
+        let f = factorial(i - 1);
+        let k = (idx / f) as usize;
+        idx %= f;
+        out.push(pool.remove(k));
+    }
+    out
+}
+
+fn tick_pairs(coinc_only: bool) -> Vec<(i32, i32)> {
+    if coinc_only {
+        vec![(2, 1), (10, 5), (2147483646, 1073741823)]
+    } else {
+        vec![(10, 7), (2, 1), (i32::MAX, 5), (0, -1)]
+    }
+}
+
+/// Single transfer: every permutation of its messages x every single duplicate insertion.
+struct PermSpace {
+    blocks: Vec<(u64, usize, u32, (i32, i32))>, // (first index, n, len, pair)
+    total: u64,
+}
+
+fn perm_variants(n: usize) -> u64 {
+    let m = n.max(1);
+    factorial(m) * (1 + (m * (m + 1)) as u64)
+}
+
+fn perm_space(max_parts: usize, coinc_only: bool) -> PermSpace {
+    let mut blocks = Vec::new();
+    let mut total = 0;
+    for n in 0..=max_parts {
+        let lens: Vec<u32> = match n {
+            0 => vec![0],
+            1 => vec![1, 900],
+            _ => vec![((n - 1) * PART + 1) as u32, (n * PART) as u32],
+        };
+        for len in lens {
+            for pair in tick_pairs(coinc_only && n >= 2) {
+                blocks.push((total, n, len, pair));
+                total += perm_variants(n);
+            }
+        }
+    }
+    PermSpace { blocks, total }
+}
+
+fn perm_case(sp: &PermSpace, idx: u64) -> HistCase {
+    let b = sp.blocks.iter().rev().find(|b| b.0 <= idx).unwrap();
+    let (n, len, (tick, base)) = (b.1, b.2, b.3);
+    let m = n.max(1);
+    let local = idx - b.0;
+    let dupv = (1 + m * (m + 1)) as u64;
+    let perm = nth_perm(m, local / dupv);
+    let dv = (local % dupv) as usize;
+    let mut sched: Vec<Deliv> = perm.iter().map(|&p| Deliv::Part { t: 0, p }).collect();
+    if dv > 0 {
+        let d = (dv - 1) / (m + 1);
+        let pos = (dv - 1) % (m + 1);
+        sched.insert(pos, Deliv::Part { t: 0, p: d as u8 });
+    }
+    HistCase {
+        transfers: vec![Transfer { tick, base, len, seed: (idx % 251) as u8, crc: (idx as i32).wrapping_mul(0x01000193) ^ 0x5bd1e995 }],
+        sched,
+    }
+}
+
+/// Two transfers (older / newer tick): every ordering of all their messages.
+struct InterSpace {
+    blocks: Vec<(u64, usize, usize, usize)>, // (first index, nA, nB, tick variant)
+    total: u64,
+}
+
+fn inter_space(max_parts: usize) -> InterSpace {
+    let mut blocks = Vec::new();
+    let mut total = 0;
+    for na in 0..=max_parts {
+        for nb in 0..=max_parts {
+            for v in 0..2 {
+                blocks.push((total, na, nb, v));
+                total += factorial(na.max(1) + nb.max(1));
+            }
+        }
+    }
+    InterSpace { blocks, total }
+}
+
+fn inter_case(sp: &InterSpace, idx: u64, coinc_only: bool) -> HistCase {
+    let b = sp.blocks.iter().rev().find(|b| b.0 <= idx).unwrap();
+    let (na, nb, v) = (b.1, b.2, b.3);
+    let (ma, mb) = (na.max(1), nb.max(1));
+    let len = |n: usize| -> u32 {
+        match n {
+            0 => 0,
+            1 => 5,
+            _ => ((n - 1) * PART + 17) as u32,
+        }
+    };
+    let ticks: [((i32, i32), (i32, i32)); 2] = if coinc_only {
+        [((10, 5), (12, 6)), ((2147483640, 1073741820), (2147483646, 1073741823))]
+    } else {
+        [((10, 7), (12, 10)), ((i32::MAX - 1, -1), (i32::MAX, i32::MAX - 1))]
+    };
+    let (a, bt) = ticks[v];
+    let perm = nth_perm(ma + mb, idx - b.0);
+    let sched = perm
+        .iter()
+        .map(|&k| {
+            if (k as usize) < ma {
+                Deliv::Part { t: 0, p: k }
+            } else {
+                Deliv::Part { t: 1, p: k - ma as u8 }
+            }
+        })
+        .collect();
+    HistCase {
+        transfers: vec![
+            Transfer { tick: a.0, base: a.1, len: len(na), seed: 3, crc: 0x1234_5678 },
+            Transfer { tick: bt.0, base: bt.1, len: len(nb), seed: 200, crc: -7 },
+        ],
+        sched,
+    }
+}
+
+/// Every data length once: in order, reversed and rotated delivery.
+fn length_case(len: u32, coinc_only: bool) -> Vec<HistCase> {
+    let n = ((len as usize + PART - 1) / PART).max(1);
+    let (tick, base) = if coinc_only { (2 * (len as i32 + 1), len as i32 + 1) } else { (len as i32 + 3, (len as i32 % 7) - 1) };
+    let tr = Transfer { tick, base, len, seed: (len % 256) as u8, crc: (len as i32).wrapping_mul(-1640531535) };
+    let orders: Vec<Vec<u8>> = vec![
+        (0..n as u8).collect(),
+        (0..n as u8).rev().collect(),
+        (0..n as u8).map(|i| ((i as usize + n / 2 + 1) % n) as u8).collect(),
+    ];
+    orders
+        .into_iter()
+        .map(|o| HistCase {
+            transfers: vec![tr.clone()],
+            sched: o.into_iter().map(|p| Deliv::Part { t: 0, p }).collect(),
+        })
+        .collect()
+}
+
+// ---------------------------------------------------------------------------
+
+fn probe_attr() -> Result<(), String> {
+    let c = HistCase {
+        transfers: vec![Transfer { tick: 10, base: 7, len: 901, seed: 0, crc: 3 }],
+        sched: vec![Deliv::Part { t: 0, p: 0 }, Deliv::Part { t: 0, p: 1 }],
+    };
+    check_hist(&c).map(|_| ())
+}
+
+pub fn run(ctx: &Ctx) {
+    ctx.set_rule(
+        "transfers = (tick, base tick with tick-base not overflowing, data length 0..=28800, crc) cut by the library's delta_chunks; \
+         schedules: (perm_exhaustive) one transfer of 0..=N parts, every permutation of its messages x every single-duplicate insertion x \
+         4 tick pairs x 2 tail lengths; (interleave_exhaustive) an older and a newer transfer of 0..=M parts each, every ordering of all their \
+         messages; (every_length) each data length 0..=28800 delivered in order, reversed and rotated; (histories) 1-4 transfers of distinct \
+         ticks, positions drawn per message with a generated amount of overlap between ticks, up to 5 extra duplicates, up to 2 arbitrary \
+         old-tick messages. Non-trivial = a transfer of >= 2 parts was completed after out-of-order delivery or a duplicate (histories: \
+         distinct by case hash).",
+    );
+    ctx.assume("the sender side is the library's own delta_chunks; its output form is checked as the premise (ceil(len/900) parts, parts concatenate to the data)");
+    ctx.assume("the reference model treats a tick as 'seen' when any message for it was passed to the receiver");
+    let open = ctx.known_open(KEY_ATTR);
+    ctx.probe(KEY_ATTR, probe_attr);
+    if open {
+        ctx.note(format!(
+            "known finding {} is open: multi-part transfers are generated only with tick - base == base",
+            KEY_ATTR
+        ));
+    }
+
+    let n_perm = if ctx.quick() { 5 } else { 7 };
+    let sp = perm_space(n_perm, open);
+    if open {
+        // number of enumerated multi-part schedules dropped because of the open finding
+        let full = perm_space(n_perm, false).total;
+        ctx.add_excluded_known(full - sp.total);
+    }
+    ctx.exhaustive(
+        "perm_exhaustive",
+        sp.total,
+        |i| {
+            let c = perm_case(&sp, i);
+            check_hist(&c).map(|st| st.completed_multi_shuffled > 0)
+        },
+        |i| serde_json::to_value(perm_case(&sp, i)).unwrap(),
+    );
+
+    let n_inter = if ctx.quick() { 3 } else { 5 };
+    let isp = inter_space(n_inter);
+    ctx.exhaustive(
+        "interleave_exhaustive",
+        isp.total,
+        |i| {
+            let c = inter_case(&isp, i, open);
+            check_hist(&c).map(|st| st.completed_multi_shuffled > 0 || (st.old_msgs > 0 && st.completed > 0))
+        },
+        |i| serde_json::to_value(inter_case(&isp, i, open)).unwrap(),
+    );
+
+    ctx.exhaustive(
+        "every_length",
+        (MAX_PARTS * PART) as u64 + 1,
+        |i| {
+            let mut nt = false;
+            for c in length_case(i as u32, open) {
+                let st = check_hist(&c)?;
+                ensure_eq!(st.completed, 1, "transfer of {} bytes: completions", i);
+                nt |= st.completed_multi_shuffled > 0;
+            }
+            Ok(nt)
+        },
+        |i| json!({"len": i, "orders": ["in order", "reversed", "rotated"]}),
+    );
+
+    ctx.prop(
+        "histories",
+        ctx.n(30_000, 1_000_000),
+        || hist_strategy(open),
+        |c: &HistCase| {
+            let st = check_hist(c)?;
+            Ok(hist_outcome(c, &st))
+        },
+    );
 }
